@@ -625,14 +625,23 @@ func (hs *handoffSet) execute(rep *common.Report, bin, outDir string) error {
 		small.Cases = hs.cases[:1]
 	}
 	if res.Out == nil || len(res.Out.Observations) != len(hs.cases) {
+		if res.TimedOut {
+			// calls that never return (a lock that is not released): the batch itself is the replay
+			judge(rep, sc, res, "Get/Set calls executed one at a time by different goroutines")
+			hs.cases = nil
+			return nil
+		}
 		// find the first case that kills the child, for the replay
-		for _, hc := range hs.cases {
+		for i, hc := range hs.cases {
+			if i >= 60 {
+				break
+			}
 			one := &StressCfg{Mode: "handoff", Cases: []*HandoffCase{hc}}
 			r1, err := runStress(bin, outDir, one, time.Minute)
 			if err != nil {
 				return err
 			}
-			if r1.Out == nil || len(r1.Out.Observations) != 1 {
+			if r1.Out == nil || len(r1.Out.Observations) != 1 || r1.Out.MismatchCount > 0 {
 				judge(rep, one, r1, "Get/Set calls executed one at a time by different goroutines")
 				break
 			}
